@@ -60,6 +60,16 @@ pub struct ChordsForKeys<'a, T> {
 
 const SMOL_Q_LEN: usize = 16;
 
+/// Capacity for the lists of queued presses. Same as the input queue (`layout::Queue`),
+/// so that a burst that fills the input queue cannot overflow them.
+const PRESSES_LEN: usize = 32;
+
+/// Capacity of the queue of events handed back to the layout in one tick. It must hold every
+/// queued input (32), the synthetic tap-hold trigger press and release (2) and one release per
+/// active chord (10); otherwise a burst of inputs within one tick is silently truncated or hits
+/// the overflow assertions.
+const DRAIN_Q_LEN: usize = 64;
+
 struct ActiveChord<'a, T> {
     /// Chords uses a virtual coordinate in the keyberon state for an activated chord.
     /// This field tracks which coordinate to release when the chord itself is released.
@@ -102,7 +112,7 @@ enum ActiveChordStatus {
 use ActiveChordStatus::*;
 
 /// Like the layout Queue but smaller.
-pub(crate) type SmolQueue = ArrayDeque<Queued, SMOL_Q_LEN, arraydeque::behavior::Wrapping>;
+pub(crate) type SmolQueue = ArrayDeque<Queued, DRAIN_Q_LEN, arraydeque::behavior::Wrapping>;
 
 /// Global input chords configuration.
 pub struct ChordsV2<'a, T> {
@@ -282,7 +292,7 @@ impl<'a, T> ChordsV2<'a, T> {
 
     fn drain_releases(&mut self, drainq: &mut SmolQueue) {
         let achs = &mut self.active_chords;
-        let mut presses = HVec::<_, SMOL_Q_LEN>::new();
+        let mut presses = HVec::<_, PRESSES_LEN>::new();
         self.queue.retain(|qd| match qd.event {
             Event::Press(_, j) => {
                 let overflow = presses.push(j);
@@ -314,7 +324,7 @@ impl<'a, T> ChordsV2<'a, T> {
     }
 
     fn process_presses(&mut self, active_layer: u16) {
-        let mut presses = HVec::<u16, SMOL_Q_LEN>::new();
+        let mut presses = HVec::<u16, PRESSES_LEN>::new();
         let mut relevant_release_found = false;
         for qd in self.queue.iter() {
             match qd.event {
@@ -347,7 +357,7 @@ impl<'a, T> ChordsV2<'a, T> {
         // Prioritization of chord activation:
         // 1. Timed out chord
         // 2. Longer chord
-        let mut accumulated_presses = HVec::<u16, SMOL_Q_LEN>::new();
+        let mut accumulated_presses = HVec::<u16, PRESSES_LEN>::new();
         let mut chord_candidates = HVec::<&ChordV2<'a, T>, SMOL_Q_LEN>::new();
         let mut timed_out_chord = Option::<(&ChordV2<'a, T>, u8)>::default();
         let mut prev_count = usize::MAX;
